@@ -308,7 +308,7 @@ def documents(ctx, with_model=False):
             g.count("glencoe_group_flags", f"{len(keep)} optional of {len(kids)}")
             yield ("group-flags", d, m) if with_model else ("group-flags", d)
         d = copy.deepcopy(doc)
-        kind = rng.randrange(8)
+        kind = rng.randrange(10)
         g.count("glencoe_malformed", kind)
         ids = list(d["features"])
         if kind == 0:
@@ -331,5 +331,7 @@ def documents(ctx, with_model=False):
         elif kind == 6:
             d["tree"].pop("id")
         elif kind == 7:
-            d["features"][rng.choice(ids)]["type"] = rng.choice(["AND", "feature", "Xor", ""])
+            d["features"][rng.choice(ids)]["type"] = rng.choice(["AND", "feature", "Xor", "", None, 3])
+        elif kind in (8, 9):
+            d["features"][rng.choice(ids)]["name"] = rng.choice([None, 7, ["x"]])
         yield ("malformed", d, m) if with_model else ("malformed", d)
